@@ -106,15 +106,24 @@ func (vfs *BasePathFS) ToBasePath(path string) string {
 		return vfs.basePath
 	}
 
-	if vfs.IsAbs(path) {
-		// The path is cleaned first : ".." elements can't go above the (virtual) root.
-		path = vfs.Clean(path)
-		vl := avfs.VolumeNameLen(vfs, path)
+	if !vfs.IsAbs(path) {
+		// A relative path is resolved against the virtual current directory,
+		// which is the virtual root when the current directory of the base file system is outside the base path.
+		curDir := string(vfs.PathSeparator())
 
-		return vfs.basePath + path[vl:]
+		baseCurDir, err := vfs.baseFS.Getwd()
+		if err == nil && strings.HasPrefix(baseCurDir, vfs.basePath) {
+			curDir = vfs.FromBasePath(baseCurDir)
+		}
+
+		path = vfs.Join(curDir, path)
 	}
 
-	return path
+	// The path is cleaned first : ".." elements can't go above the (virtual) root.
+	path = vfs.Clean(path)
+	vl := avfs.VolumeNameLen(vfs, path)
+
+	return vfs.basePath + path[vl:]
 }
 
 // Name returns the name of the fileSystem.
